@@ -18,6 +18,7 @@ EVIDENCE = dict(
 
 def run(ctx):
     q = ctx.tier == "quick"
+    ctx.extra_prefixes = ["docs_"]   # document generators registered for the history driver
     # R1
     ctx.tlc("ParseIsolationMC", "ParseIsolation_mc_quick.cfg" if q else "ParseIsolation_mc.cfg", timeout=1800)
     ctx.tlc("ParseIsolationMC", "ParseIsolation_mc_impl.cfg", expect_violation=True)
